@@ -98,5 +98,5 @@ TEXT = {
     },
 }
 
-_pending = "check not built yet in this session (work in progress; the Lean-proof technique does apply — see DESIGN.md §4)"
+_pending = "not claimed: the search c05-prog exists (programs lowered to every target and run in Node; it finds the recorded BigInt ** defect and seeded change C05-m1) but no Lean model of a lowering pass is tied to the code yet, so the property is not claimed on a search alone; the technique does apply (see DESIGN.md A.6); seeded change C05-m2 (`using`) cannot be detected with Node 20"
 NOT_APPLICABLE = {("C%02d" % i): _pending for i in range(1, 21)}
